@@ -1,6 +1,7 @@
 #!/usr/bin/env python3
 """Maintenance tool (not run by bin/check): derive windows.json from a dump of an all-green sweep on the
 unchanged tree:  C19_DUMP=/tmp/C19_dump.json bin/check C19 --tier thorough ; python3 calibrate.py /tmp/C19_dump.json
+(add --merge after the dump path to keep existing windows when the dump comes from a partial `--only` run)
 
 For every acyclic pair whose outcome is `val` below some depth b and a caught error from b on (monotone),
 and whose limit is a guard constant of janet.h, record the window of the first erroring depth relative to
@@ -67,6 +68,11 @@ def main():
         off = int(round(b - centre))
         out[key] = {"guard": g, "div": div, "lo": off - tol, "hi": off + tol,
                     "measured_first_error": b, "measured_with": G[g]}
+    if "--merge" in sys.argv:
+        # keep the windows of pairs that are not in this (partial, e.g. --only <family>) dump
+        old = json.load(open(os.path.join(HERE, "windows.json")))
+        old.update(out)
+        out = old
     with open(os.path.join(HERE, "windows.json"), "w") as f:
         json.dump(out, f, indent=0, sort_keys=True)
     print("%d windows written" % len(out))
